@@ -132,7 +132,8 @@ type Sim struct {
 	SwitchPairs  map[string]struct{}
 	Trace        []string // first scheduling decisions, for samples
 	TraceAll     bool
-	AutoAdvances int        // times the clock was moved to a library timer
+	AutoAdvances int // times the clock was moved to a library timer
+	tickers      []*ticker
 	recent       [16]string // ring of the last scheduling decisions
 	SimTime      time.Duration
 	nroot        int
@@ -658,6 +659,16 @@ func (s *Sim) nextTimer() (time.Duration, bool) {
 	var keep []time.Time
 	var best time.Duration
 	found := false
+	s.mu.Lock()
+	for _, tk := range s.tickers {
+		for !tk.next.After(now) {
+			tk.next = tk.next.Add(tk.period)
+		}
+		if d := tk.next.Sub(now); !found || d < best {
+			best, found = d, true
+		}
+	}
+	s.mu.Unlock()
 	for _, t := range s.timers {
 		if !t.After(now) {
 			continue
@@ -738,3 +749,78 @@ var (
 	AutoAdvanceMax    = 40
 	AutoAdvanceBudget = 30 * time.Second
 )
+
+// Timers and tickers of instrumented code: created on the bubble's fake clock
+// as usual, and made known to the scheduler so that it moves the clock to them
+// when nothing else can run (within the limits above).
+
+type ticker struct {
+	t      *time.Ticker
+	period time.Duration
+	next   time.Time
+}
+
+// NewTimer replaces time.NewTimer in instrumented code.
+func NewTimer(d time.Duration) *time.Timer { register(d); return time.NewTimer(d) }
+
+// TimerReset replaces (*time.Timer).Reset.
+func TimerReset(t *time.Timer, d time.Duration) bool { register(d); return t.Reset(d) }
+
+// NewTicker replaces time.NewTicker.
+func NewTicker(d time.Duration) *time.Ticker {
+	t := time.NewTicker(d)
+	if s := cur.Load(); s != nil && !s.dead.Load() {
+		s.mu.Lock()
+		s.tickers = append(s.tickers, &ticker{t: t, period: d, next: time.Now().Add(d)})
+		s.mu.Unlock()
+	}
+	return t
+}
+
+// Tick replaces time.Tick.
+func Tick(d time.Duration) <-chan time.Time { return NewTicker(d).C }
+
+// TickerStop replaces (*time.Ticker).Stop.
+func TickerStop(t *time.Ticker) {
+	if s := cur.Load(); s != nil {
+		s.mu.Lock()
+		for i, tk := range s.tickers {
+			if tk.t == t {
+				s.tickers = append(s.tickers[:i], s.tickers[i+1:]...)
+				break
+			}
+		}
+		s.mu.Unlock()
+	}
+	t.Stop()
+}
+
+// TickerReset replaces (*time.Ticker).Reset.
+func TickerReset(t *time.Ticker, d time.Duration) {
+	if s := cur.Load(); s != nil {
+		s.mu.Lock()
+		for _, tk := range s.tickers {
+			if tk.t == t {
+				tk.period, tk.next = d, time.Now().Add(d)
+			}
+		}
+		s.mu.Unlock()
+	}
+	t.Reset(d)
+}
+
+// Adopted wraps a function that a package outside the instrumented code starts
+// in a goroutine of its own (errgroup.Group.Go): the goroutine registers with
+// the simulator and parks before it runs f.
+func Adopted(site string, f func() error) func() error {
+	s := cur.Load()
+	if s == nil || s.dead.Load() {
+		return f
+	}
+	name := s.afName()
+	return func() error {
+		var err error
+		s.adopt(name, site, func() { err = f() })
+		return err
+	}
+}
